@@ -522,11 +522,11 @@ Lemma option_unit_eq : forall a b : option unit,
   (match a with Some _ => true | None => false end) = (match b with Some _ => true | None => false end) -> a = b.
 Proof. intros [[]|] [[]|]; cbn; congruence. Qed.
 
-Theorem sim2_after_migration : forall (sigT : Type) (recover : Z -> Z -> sigT -> option Z) s from to sg s',
-  wf s -> qcoverb s = true -> balposb s = true -> idx36_ok s ->
+Theorem sim2_after_migration_w : forall (sigT : Type) (recover : Z -> Z -> sigT -> option Z) s from to sg s',
+  wf s -> qcoverb s = true -> (forall d, 0 <= bal_of s to d) -> idx36_ok s ->
   migrate_tx sigT recover s from to sg = Ok s' -> sim2 from to s s'.
 Proof.
-  intros sigT recover s from to sg s' W Q B I36 H. split; [eapply sim_after_migration; eassumption|].
+  intros sigT recover s from to sg s' W Q B I36 H. split; [eapply sim_after_migration_w; eassumption|].
   apply migrate_tx_inv in H. destruct H as (N & _ & H). pose proof (migrate_account_moved _ _ _ _ W N H) as M.
   apply migrate_account_inv in H. destruct H as (_ & _ & _ & V & _).
   pose proof (staking_validate_target_clean _ _ _ V) as C.
@@ -548,7 +548,28 @@ Proof.
   - intros t. rewrite (mv_redq _ _ _ _ M). destruct (existsb (Z.eqb t) (red_times s from)); [apply qrel3_map_ren | apply qrel3_refl].
 Qed.
 
+Theorem sim2_after_migration : forall (sigT : Type) (recover : Z -> Z -> sigT -> option Z) s from to sg s',
+  wf s -> qcoverb s = true -> balposb s = true -> idx36_ok s ->
+  migrate_tx sigT recover s from to sg = Ok s' -> sim2 from to s s'.
+Proof. intros sigT recover s from to sg s' W Q B I36 H. eapply sim2_after_migration_w; eauto. intros d. apply balpos_nonneg. exact B. Qed.
+
 (* ---------- assembled ---------- *)
+Theorem followups_commute_w : forall (sigT : Type) (recover : Z -> Z -> sigT -> option Z)
+    (env : Type) (ask : env -> query -> vans) (env_next : env -> query -> env)
+    s from to sg s' e ops e1 t,
+  wf s -> qcoverb s = true -> (forall d, 0 <= bal_of s to d) -> idx36_ok s ->
+  pool_nb (cfg s) <> from -> pool_nb (cfg s) <> to ->
+  migrate_tx sigT recover s from to sg = Ok s' ->
+  (forall o, In o ops -> factor o <> to) ->
+  fruns env ask env_next e s ops = Ok (e1, t) ->
+  exists t', fruns env ask env_next e s' (map (ren_fop from to) ops) = Ok (e1, t') /\ sim2 from to t t'.
+Proof.
+  intros sigT recover env ask env_next s from to sg s' e ops e1 t W Q B I Npf Npt H Ha R.
+  pose proof (sim2_after_migration_w sigT recover s from to sg s' W Q B I H) as S.
+  apply migrate_tx_inv in H. destruct H as (N & _).
+  apply (sim2_run env ask env_next from to N ops e s s' e1 t Npf Npt S Ha R).
+Qed.
+
 Theorem followups_commute : forall (sigT : Type) (recover : Z -> Z -> sigT -> option Z)
     (env : Type) (ask : env -> query -> vans) (env_next : env -> query -> env)
     s from to sg s' e ops e1 t,
@@ -559,10 +580,8 @@ Theorem followups_commute : forall (sigT : Type) (recover : Z -> Z -> sigT -> op
   fruns env ask env_next e s ops = Ok (e1, t) ->
   exists t', fruns env ask env_next e s' (map (ren_fop from to) ops) = Ok (e1, t') /\ sim2 from to t t'.
 Proof.
-  intros sigT recover env ask env_next s from to sg s' e ops e1 t W Q B I Npf Npt H Ha R.
-  pose proof (sim2_after_migration sigT recover s from to sg s' W Q B I H) as S.
-  apply migrate_tx_inv in H. destruct H as (N & _).
-  apply (sim2_run env ask env_next from to N ops e s s' e1 t Npf Npt S Ha R).
+  intros sigT recover env ask env_next s from to sg s' e ops e1 t W Q B. apply followups_commute_w; try assumption.
+  intros d. apply balpos_nonneg. exact B.
 Qed.
 
 (* a concrete run: validator-side answers fixed, the source's would-be actions replayed by the target *)
